@@ -144,3 +144,65 @@ def c02(ctx):
                 "classified by Head!RefParse as must-accept (fields compared exactly), must-reject (error class "
                 "compared) or free (internal consistency only)")
     ctx.level = "model_checking"
+
+
+# ---------------------------------------------------------------------------------- C06 C07 C08 C20
+for _d in ("resp-gen", "resp-faults", "status-all"):
+    reg(_d, "Trace_Response")
+reg("chunk-lens", "Trace_Chunked")
+reg("chunk-gen", "Trace_Chunked")
+
+
+@prop("C06")
+def c06(ctx):
+    ctx.mc("MC_Chunked", workers=8)
+    tr = ctx.drive("resp-gen", n=600 if ctx.quick else 6000, big=0 if ctx.quick else 1, timeout=3000)
+    ctx.validate("Trace_Response", tr, "resp-gen", shards=8, timeout=3000)
+    ctx.rule = ("random status 100..999 x all ContentType variants x 0..20 user fields (names over all tchar, names "
+                "colliding case-insensitively with automatic fields) x body variants Vec/static/File/TempFile/event "
+                "stream x sizes {0,1,2,17,1000,65535,65536,65537,200k (+1 MiB+1, 3 MiB thorough)} x writer schedules "
+                "(all, 1 byte, 7 bytes with Pending, cycling sizes); the first schedule fixes the bytes, every other "
+                "must reproduce them")
+
+
+@prop("C07")
+def c07(ctx):
+    ctx.mc("MC_Chunked", workers=8)
+    tr = ctx.drive("chunk-lens", hi=65528)
+    ctx.validate("Trace_Chunked", tr, "chunk-lens", shards=12, sample=True)
+    tr2 = ctx.drive("chunk-gen", n=400 if ctx.quick else 5000, timeout=3000)
+    ctx.validate("Trace_Chunked", tr2, "chunk-gen", shards=4 if ctx.quick else 12)
+    ctx.exhaustive = True
+    ctx.rule = ("every piece length 1..65528 through copy_chunked_async (exhaustive), plus random streams of 0..12 "
+                "pieces with adversarial lengths (1, 15/16/17, 255/256/257, 4095..4097, 65527..65529, 65535, 65536, "
+                "100000: the source offers more than the encoder asks) with source errors and writer failures at and "
+                "inside chunk boundaries; the output is walked by the sizes it declares and judged by the RFC decoder")
+
+
+@prop("C08")
+def c08(ctx):
+    ctx.mc("MC_Conn", workers=8)
+    tr = ctx.drive("resp-faults", body=300 if ctx.quick else 4096, timeout=3000)
+    ctx.validate("Trace_Response", tr, "resp-faults", shards=8)
+    ctx.exhaustive = True
+    ctx.level = "fault_enumeration"
+    ctx.rule = ("8 responses (text, 204, 5xx+close, user header, file, temp file, static, event stream) x a write error "
+                "after EVERY accepted-byte count 0..len+1 x two write granularities; body file shorter by "
+                "{all, all-1, half, 1} bytes, missing, removed between head and body; 7 connection-level cases over "
+                "loopback (failed write, then the 500 handle_http_conn would send)")
+
+
+@prop("C20")
+def c20(ctx):
+    ctx.mc("MC_Conn", workers=8)
+    tr = ctx.drive("status-all")
+    ctx.validate("Trace_Response", tr, "status-all")
+    import json as _j
+    unc = [_j.loads(l) for l in open(tr) if '"CtorList"' in l]
+    if unc and unc[0].get("uncovered"):
+        ctx.notes.append("status-named constructors in response.rs not known to the harness (uncovered, not a "
+                         "violation): " + ", ".join(unc[0]["uncovered"]))
+    ctx.exhaustive = True
+    ctx.rule = ("all 15 status-named constructors, all 28 HttpError variants (I/O payloads carrying a path and CR/LF), "
+                "each mapped response serialised and its status line read back; every status 100..999 through a "
+                "loopback HttpConn (close header and write-side shutdown iff 5xx)")
